@@ -14,7 +14,7 @@
 EXTENDS IndexOps, TLC, Json
 
 CONSTANTS MinSteps, MaxSteps,
-          FamStreams, FamBase, FamGroups, ParkA, ParkB,  \* families: Stream counts / number of shapes / Record-group counts (empty = off)
+          FamStreams, FamBase, FamGroups, ParkA, ParkB, EncN,  \* families: Stream counts / number of shapes / Record-group counts (empty = off)
           CommonU, CommonV,   \* value classes of the extra (weighting) append actions of the random walks
           Volume      \* TRUE: also offer the macro calls appendn / catn (many Records / Streams at once)
 VARIABLES st, hist, done
@@ -43,6 +43,7 @@ TinyF == {F(1), F(10)}
 NoValues == {}
 FamStreamsQ == 5..6   FamGroupsQ == {5}
 FamStreamsT == 5..8   FamGroupsT == {5, 6}
+EncNQ == {0, 1, 127, 128, 300, 16384}
 ParkAQ == {300, 600, 1100, 1600, 2100}   ParkBQ == {100, 500, 1000}
 ParkAT == {300, 512, 600, 1024, 1100, 1536, 1600, 2048, 2100, 2600}   ParkBT == {1, 100, 500, 512, 1000, 1100}
 
@@ -73,8 +74,12 @@ CandGroups(s) == UNION {{Op("groups", 1, 0, Zero, Zero, n, m, NoFlags) : n \in 0
 ParkPos(a) == {t \in 1..a : t <= 2 \/ t >= a - 1 \/ (t % 512) \in {0, 1, 511}}
 CandPark(s) == UNION {{Op("park", 1, mode, AddS(USizeI(s.reg[1]), t - 1), BigOf(t), a, b, NoFlags) :
                           t \in ParkPos(a), b \in ParkB, mode \in {ANY, BLOCK, NONEMPTY}} : a \in ParkA}
+\* Indexes whose Number of Records field is 1, 2 and 3 bytes long, encoded and decoded again; the harness feeds the
+\* Index decoder byte by byte and with a first chunk that ends after every byte (so after every field) of the encoding.
+CandEncN(s) == {Op("encn", 1, 0, BigOf(8), Zero, n, 0, NoFlags) : n \in EncN}
+               \cup {Op("encn", 1, 0, BigOf(300), BigOf(70000), n, 0, NoFlags) : n \in {n \in EncN : n <= 1000}}
 \* (a family call ends the history)
-FamDone == \E n \in 1..Len(hist) : hist[n].op \in {"streams", "groups", "park"}
+FamDone == \E n \in 1..Len(hist) : hist[n].op \in {"streams", "groups", "park", "encn"}
 Running == ~done /\ Len(hist) < MaxSteps /\ ~FamDone
 Do(o) == st' = Apply(st, o).st /\ hist' = Append(hist, o) /\ UNCHANGED done
 Init == st = St0 /\ hist = <<>> /\ done = FALSE
@@ -101,6 +106,7 @@ Next == \/ Running /\ \E o \in CandInit(st) : Do(o)
         \/ Running /\ Len(hist) <= 1 /\ \E o \in CandStreams(st) : Do(o)
         \/ Running /\ Len(hist) <= 1 /\ \E o \in CandGroups(st) : Do(o)
         \/ Running /\ Len(hist) <= 1 /\ \E o \in CandPark(st) : Do(o)
+        \/ Running /\ Len(hist) <= 1 /\ \E o \in CandEncN(st) : Do(o)
         \/ Finish
 Spec == Init /\ [][Next]_vars
 \* (family calls that end in the same state are different plans)
